@@ -511,10 +511,10 @@ def model_input(pid, case_line, raw):
             n = _common_prefix(out, obs)
             if best is None or n > best[0]:
                 best = (n, line, cand)
-        if matching:
-            return matching[0]
-        # which of several jitter values of one iteration went to which consumer
+        # which of several jitter values of one iteration went to which consumer: first choice a
+        # candidate that reproduces the observation AND whose due work agrees with the wake-ups
         recs = list(replay_steps(h, its))
+        fallback = None
         for k in multi_j[:8]:
             jit = recs[k][0]["jitter"]
             for perm in itertools.permutations(jit):
@@ -522,7 +522,14 @@ def model_input(pid, case_line, raw):
                     continue
                 line = build_input(pid, h, its, best[2], {k: list(perm)})
                 if _model_eval(line) == obs:
-                    return line
+                    if _wake_consistent(line):
+                        return line
+                    if fallback is None:
+                        fallback = line
+        if matching:
+            return matching[0]
+        if fallback is not None:
+            return fallback
         return best[1]
     except Exception:
         return first
